@@ -78,6 +78,12 @@ def run_check(P, tier, seed, replay=None):
             n_thm, n_ok, probs, axioms_used = audit_assumptions(r.out, P.COQ_PROPS)
             for p_ in probs:
                 broken.append(("assumptions", p_, ""))
+        chk_note = None
+        if tier == "thorough" and r.ok:
+            rc_ = coqchk(P.COQ_PROPS)
+            chk_note = rc_.detail
+            if not rc_.ok:
+                broken.append(("coqchk", rc_.detail, rc_.out[-3000:]))
         bad = audit_sources()
         for b in bad:
             broken.append(("forbidden-vernacular", b, ""))
@@ -238,6 +244,7 @@ def run_check(P, tier, seed, replay=None):
         "trusted_base": TRUSTED_BASE + getattr(P, "TRUSTED_EXTRA", []),
         "theorems": getattr(P, "THEOREMS", []),
         "axioms_used": axioms_used,
+        "coqchk": chk_note if tier == "thorough" else "not run in the quick tier",
         "evaluations": len(cases), "distinct_nontrivial": len(distinct),
         "rule": getattr(P, "RULE", ""),
         "samples": samples,
